@@ -579,6 +579,8 @@ def build_pipeline_inspection(
     deleted_keys: set[str] = set()  # Tracks keys that have been deleted from context
     all_required_params: set[str] = set()  # All parameters required from context
     all_created_keys: set[str] = set()  # All keys created by any node
+    # Keys that must be supplied by the initial context (order-sensitive)
+    required_context_keys: set[str] = set()
     errors: List[str] = []
 
     # Process each node configuration
@@ -732,6 +734,17 @@ def build_pipeline_inspection(
 
         all_required_params.update(required_params)
 
+        # A required key that no earlier node provides must come from the initial
+        # context; a key deleted by an earlier node cannot be supplied at all.
+        deleted_before = set(deleted_keys)
+        available_before = set(key_origin) - deleted_before
+        required_context_keys.update(
+            required_params
+            - available_before
+            - deleted_before
+            - set(node.processor_config.keys())
+        )
+
         required_external_parameters: List[str] = []
         required_hook = getattr(
             processor.__class__, "get_required_external_parameters", None
@@ -784,7 +797,7 @@ def build_pipeline_inspection(
             deleted_keys.update(suppressed_keys)
 
         # Validate parameter availability against deleted keys
-        missing_deleted = (required_params & deleted_keys) - suppressed_keys
+        missing_deleted = required_params & deleted_before
         if missing_deleted - set(config_params.keys()):
             node_errors.append(
                 f"Node {index} requires context keys previously deleted: {sorted(missing_deleted)}"
@@ -828,9 +841,8 @@ def build_pipeline_inspection(
                 node_inspection.preprocessor_view = view
         inspection_nodes.append(node_inspection)
 
-    # Calculate pipeline-level required context keys
-    # These are parameters required by nodes but not created by any node
-    required_context_keys = all_required_params - all_created_keys
+    # Pipeline-level required context keys were accumulated per node above:
+    # parameters required by a node and not provided by any earlier node
 
     return PipelineInspection(
         nodes=inspection_nodes,
